@@ -20,17 +20,12 @@ Definition Aut (g : perm) : Prop :=
   (forall i j, i < n -> j < n -> adj (app g i) (app g j) = adj i j) /\
   (forall i, i < n -> cls (app g i) = cls i).
 
-Definition is_automorphism (g : perm) : bool :=
-  is_permb n g &&
-  forallb (fun i => forallb (fun j => Bool.eqb (adj (app g i) (app g j)) (adj i j)) (seq 0 n)) (seq 0 n) &&
-  forallb (fun i => cls (app g i) =? cls i) (seq 0 n).
-
 Lemma forallb_seq (f : nat -> bool) : forallb f (seq 0 n) = true <-> forall i, i < n -> f i = true.
 Proof.
   rewrite forallb_forall. split; intros H i Hi; apply H; [apply in_seq; lia|apply in_seq in Hi; lia].
 Qed.
 
-Theorem is_automorphism_spec g : is_automorphism g = true <-> Aut g.
+Theorem is_automorphism_spec g : is_automorphism n adj cls g = true <-> Aut g.
 Proof.
   unfold is_automorphism, Aut. rewrite !andb_true_iff, is_permb_spec, !forallb_seq.
   split.
@@ -43,9 +38,9 @@ Proof.
     + intros i Hi. apply Nat.eqb_eq; auto.
 Qed.
 
-Corollary is_automorphism_false g : is_automorphism g = false <-> ~ Aut g.
+Corollary is_automorphism_false g : is_automorphism n adj cls g = false <-> ~ Aut g.
 Proof.
-  rewrite <- is_automorphism_spec. destruct (is_automorphism g); split; intros H; try congruence.
+  rewrite <- is_automorphism_spec. destruct (is_automorphism n adj cls g); split; intros H; try congruence.
 Qed.
 
 (* ---------------------------------------------------------------- the group *)
